@@ -34,6 +34,9 @@ static void run_one(int idx, FILE *out, void *vctx) {
         real_close(fd);
         return;
     }
+    /* everything the getters report right after the open, to be compared with what they report at the end (C13) */
+    char *m0 = NULL; size_t m0n = 0;
+    { FILE *mf = open_memstream(&m0, &m0n); dump_meta(zck, mf, "M"); fclose(mf); }
     int ns = 0;
     int pfd = -1;
     blob pre = blob_new(4096);
@@ -88,6 +91,31 @@ static void run_one(int idx, FILE *out, void *vctx) {
     off_t pos = real_lseek(fd, 0, SEEK_CUR);
     fprintf(out, " pos=%lld", (long long)pos - (long long)zck_get_header_length(zck));
     read_res r = lib_read_ctx(zck, c->sched, c->nsched, k->disk->n * 4 + 65536, false);
+    {
+        char *m1 = NULL; size_t m1n = 0;
+        bool usable = zck_clear_error(zck);      /* a context left in a fatal error state refuses every call: nothing to compare */
+        FILE *mf = open_memstream(&m1, &m1n); dump_meta(zck, mf, "M"); fclose(mf);
+        /* the per-chunk validity column (last field of every chunk item) legitimately changes: drop it on both sides */
+        for(int side = 0; side < 2; side++) {
+            char *m = side ? m1 : m0;
+            char *cp = m ? strstr(m, " chunks=") : NULL;
+            if(!cp) continue;
+            char *w = cp + 8, *q = cp + 8;
+            while(*q && *q != ' ') {
+                char *e = q;
+                while(*e && *e != ',' && *e != ' ') e++;
+                char *lc = e;
+                while(lc > q && *lc != ':') lc--;
+                if(lc > q) { memmove(w, q, lc - q); w += lc - q; } else { memmove(w, q, e - q); w += e - q; }
+                if(*e == ',') { *w++ = ','; e++; }
+                q = e;
+            }
+            memmove(w, q, strlen(q) + 1);
+        }
+        fprintf(out, " metasame=%d", !usable ? -1 : (m0 && m1 && strcmp(m0, m1) == 0));
+        free(m1);
+    }
+    free(m0);
     if(npre) {
         /* bytes handed out by partial reads during the history come first */
         unsigned char *all = malloc(npre + r.content.n + 1);
